@@ -10,7 +10,7 @@ from vlib.pyround import to_quantum
 PID = 'C11'
 PROPERTY_FILE = 'Properties/C11.v'
 # generated model parts (translate/) this property's model / proofs really depend on
-GEN_DEPS = ['MoneyConvImpl', 'EffectsImpl']
+GEN_DEPS = ['MoneyConvImpl', 'EffectsImpl', 'StateInventory']
 MODEL_TARGETS = ['Corr/MoneyConvCorr.vo']
 PROOF_TARGETS = ['Proofs/GenMoneyConvEq.vo', 'Proofs/EffectsProofs.vo', 'Proofs/C11Proofs.vo']
 COQ_HEADER = ("From QV Require Import Model.Num Model.Quantity Model.Rates "
